@@ -602,3 +602,8 @@ def table_columns(u: Unit):
 
 
 STANDIN = {r"table\.columns": TABLE_REPLAY}
+
+
+# the persistence model loads TWO maps, each with its own position and alignment keyword: its model unit (C15w) carries the placement obligation
+from . import C15w as _C15w  # noqa: E402
+unit("C20", "models.persistence_maps")(_C15w.full_persistence_model)
